@@ -6,6 +6,7 @@
 //! `gen` produces workloads, and `props::cNN` hold one monitor per property.
 
 pub mod rng;
+pub mod shapes;
 pub mod monitor;
 pub mod guard;
 pub mod oracle;
